@@ -26,6 +26,10 @@
 (*   sdur[j]  duration of the co_shutdown() handler (-1 = never returns)   *)
 (*   cdur[j]  duration of the clean-up a cancelled body performs           *)
 (*   scdur[j] duration of the clean-up a cancelled co_shutdown() performs  *)
+(*   cout[j]  "cancelled" | "exc": how the clean-up of a cancelled body ends:*)
+(*            by letting CancelledError through, or by raising something   *)
+(*            else (a failing `finally:`): the body then "finished by      *)
+(*            raising", after the scheduler has given it up                *)
 (*   cwait[j] 0, or a sibling whose cancellation (or end) the clean-up of  *)
 (*            the cancelled body of j waits for (e.g. a lock that sibling  *)
 (*            holds): _tidy_tasks cancels every pending task before it     *)
@@ -62,7 +66,7 @@ CfgOf(J) ==
     crit |-> J.crit, forever |-> J.forever, win |-> J.win, tmo |-> J.tmo,
     stmo |-> J.stmo, dur |-> J.dur, out |-> J.out, sdur |-> J.sdur,
     cdur |-> J.cdur, scdur |-> J.scdur, horizon |-> J.horizon, ucancel |-> J.ucancel,
-    cwait |-> J.cwait, preshut |-> J.preshut, xshut |-> J.xshut ]
+    cwait |-> J.cwait, preshut |-> J.preshut, xshut |-> J.xshut, cout |-> J.cout ]
 
 Min(T) == CHOOSE t \in T : \A u \in T : t <= u
 Max(T) == CHOOSE t \in T : \A u \in T : t >= u
@@ -204,7 +208,9 @@ JobEndF(C, X, j, o) ==
 Released(C, X, j)    == IF C.cwait[j] = 0 THEN TRUE ELSE X.st[C.cwait[j]] \in {"cancelling", "ok", "exc", "cancelled"}
 CancelDoneG(C, X, j) == /\ IsJob(C, j) /\ X.st[j] = "cancelling" /\ X.now >= X.tc[j] + C.cdur[j]
                         /\ Released(C, X, j)
-CancelDoneF(C, X, j) == [X EXCEPT !.st[j] = "cancelled", !.te[j] = X.now]
+CancelDoneF(C, X, j) == IF C.cout[j] = "exc"
+                        THEN [X EXCEPT !.st[j] = "exc", !.te[j] = X.now, !.res[j] = <<"exc", j>>]
+                        ELSE [X EXCEPT !.st[j] = "cancelled", !.te[j] = X.now]
 
 (* UserCancel: the caller cancels the task that runs the top-level co_run()  *)
 (* (e.g. asyncio.wait_for around it): the same one-level cancellation a      *)
